@@ -109,6 +109,7 @@ def decide(prop_id, tier, seed, registry=None, keep_out=False):
                 sa = Q.get("sweep_args", {})
                 args.update(sa.get(tier, sa.get("quick", {})) if isinstance(sa.get("quick"), dict) else sa)
                 plan.append((Q["engine"], q, {"config": cfg, "shards": sweep.get("shards", 4), "seeds": sweep.get("seeds", {}).get(tier, 1),
+                                              "run_shards": sweep.get("run_shards", {}).get(tier),
                                               "args": args, "lite": True, "timeout": sweep.get("timeout", 1800)}))
     else:
         for r in (P["runs"].get(tier) or P["runs"]["quick"]):
@@ -127,7 +128,8 @@ def decide(prop_id, tier, seed, registry=None, keep_out=False):
             shards = int(r.get("shards", 8))
             for si in range(nseeds):
                 s = seed + si * 1000003
-                for sh in range(shards):
+                # a sweep's quick tier may run only the first k of n shards (a k/n sample of every case set)
+                for sh in range(min(shards, int(r.get("run_shards") or shards))):
                     base = ["--prop", harness_prop, "--tier", "quick" if sweep else tier, "--seed", str(s), "--config", r["config"],
                             "--shard", "%d/%d" % (sh, shards)]
                     if r.get("lite"):
